@@ -66,14 +66,8 @@ fn summarise_mt(prop: &str, spec: &MtSpec, out: &MtOut) -> RunSummary {
         "C12" => out.hb_checks > 4 && out.switches >= 2,
         _ => out.switches >= 2,
     } && !out.setup_failed;
-    let mut viols = out.viols.clone();
-    for v in viols.iter_mut() {
-        // MT signatures carry the bracketed tag
-        let sig = crate::mtscen::mt_signature(v);
-        v.class = Box::leak(sig.splitn(2, '|').nth(1).unwrap_or("").to_string().into_boxed_str());
-    }
     RunSummary {
-        viols,
+        viols: out.viols.clone(),
         nontrivial,
         hash: out.trace_hash,
         state_hash: out.trace_hash ^ (out.end_nodes as u64),
@@ -115,6 +109,18 @@ pub fn plan(prop: &str, tier: &str) -> Option<Plan> {
         "C17" => base(240_000, 4_000_000, "histories with rewind(pos) at arbitrary points, pos boundary-dense over u32 / i64; cursor vs i128 reference clamp, nothing else changes; clear() checked in place and (differentially) against a fresh arena. Non-trivial = at least one rewind whose raw target fell outside [data_offset, capacity] and one inside; distinct by abstract state sequence hash"),
         "C18" => base(200_000, 3_000_000, "unsync::Arena histories (Vec / anon / file, unify on/off, free list and live detached data) with truncate(n), n boundary-dense in 0..=4*capacity, repeated; capacity = max(n, allocated), header / free list / bytes below allocated unchanged, later allocations judged by the per-step oracles against the new capacity; read-only sessions must refuse. Non-trivial = at least one growing and one shrinking truncate with a non-empty free list or live data; distinct by abstract state sequence hash"),
         "C20" => base(240_000, 4_000_000, "histories with discard_freelist / increase_discarded / set_minimum_segment_size anywhere; per-step accounting from (discarded, snapshot) before/after, discarded ranges never handed out again. Non-trivial = discard_freelist on a list with >= 2 segments and at least one too-small release; distinct by abstract state sequence hash"),
+        "C06" => {
+            let mut p = base(6_000, 120_000, "file-backed histories (sync: Optimistic / Pessimistic / None; unsync at operation boundaries); the hook copies memory() at every atomic step; every step of every operation (before the first and after the last access included) is a crash point - all of them within a history in the thorough tier, every third plus all operation boundaries in the quick tier; each image is written to a fresh tmpfs file and opened with the real map_mut; oracle: opens, data_offset <= cursor <= capacity, every range returned and not being released holds its bytes and lies below the cursor, post-crash workload (fill, drain the list, free, discard_freelist) terminates under a 20000-step per-call budget and never hands out a pre-crash live byte. evaluations = histories; coverage.faults_fired.crash_point = crash points. Non-trivial = history with >= 3 in-operation crash points, live ranges and a non-empty free list; distinct by access-trace hash");
+            p.level = "fault_enumeration";
+            p.exhaustive = false;
+            p
+        }
+        "C09" => {
+            let mut p = base(4_000, 80_000, "valid arena file from a short history (live data, free list, non-zero bytes above the cursor); per run one of: one identification byte x all 256 values, every truncation length 0..=prefix+16, 48 garbage files, or a read-only session of 4..40 mutating safe calls; each file x open variants {map_mut, map_copy, map, map_copy_read_only} x capacity {absent, same, larger} x expected freelist / magic right or wrong (all 12 variant x capacity combinations in the thorough tier, a seeded half in the quick tier); expected outcome computed from the statement; refused open => file bytes unchanged (prefix comparison). evaluations = base files; coverage.faults_fired.corrupt_* = fault cases. Non-trivial = at least one fault case executed; distinct by (seed, run, cases) hash");
+            p.level = "fault_enumeration";
+            p
+        }
+        "C11" => base(200_000, 3_000_000, "one configuration and one seeded operation sequence over the whole single-thread-usable trait surface (all alloc flavours, drop/detach/dealloc, discard_freelist, set_minimum_segment_size, increase_discarded, rewind, clear; Vec / anon / file) executed in lock-step on sync::Arena (with spurious weak-CAS failures injected) and unsync::Arena as the executable reference model; equal observation tuples (result kind, error kind, offset, capacity, buffer extent, allocated, discarded, remaining, free-list snapshot, refs) after every step. Non-trivial = at least 4 operations with a release or a slow-path allocation; distinct by abstract state sequence hash"),
         "C02" => base(60_000, 1_500_000, "seeded schedules (random / sticky / PCT / targeted-preemption strategies, spurious weak-CAS failures) of 2..4 threads x 1..12 operations (alloc_bytes / alloc_aligned_bytes / alloc<T> / owned variants / drop / keep-for-ever) on clones of one sync::Arena after a single-threaded set-up that fills the arena and frees a random subset; oracles inside scheduling steps: new range in data area and disjoint from all live ranges, all live bytes equal their shadow after every value-changing access and before every arena zeroing, every intercepted address inside arena/header. Non-trivial = a list operation (slow-path allocation or release) of one thread overlapped in time with one of another thread, or a CAS failed; distinct = distinct hash of the normalised access trace (thread, location, op, outcome)*"),
         "C07" => base(60_000, 1_500_000, "schedules as C02 (Optimistic / Pessimistic) plus discard_freelist and threads that keep or detach allocations for ever or finish early; busy-wait detector parks a thread after 256 accesses without any value-changing write by anybody; verdicts: all unfinished threads parked and a 4096-step-per-thread round-robin confirmation without change (V1), solo thread > 20000 steps in one call (V2), no call completed in 50000 steps (V3). Non-trivial / distinct as C02"),
         "C12" => base(40_000, 1_000_000, "schedules as C02 plus programs that clone / drop arena values and move owned buffers between threads (mailbox = release/acquire pair), teardown inside the simulation; FastTrack-style vector clocks with C++20 release sequences built from the Ordering arguments actually passed; plain accesses = owner writes/reads through handles, arena zeroing, unmap/free; oracle: no conflicting plain/plain or plain/atomic accesses unordered by happens-before. Non-trivial = more than 4 conflict checks and >= 2 context switches; distinct by access-trace hash"),
@@ -185,7 +191,79 @@ pub fn run_one(prop: &str, seed: u64, run: u64, tier: &str) -> RunSummary {
     }
 }
 
-fn run_one_inner(prop: &str, seed: u64, run: u64, _tier: &str) -> RunSummary {
+fn summarise_diff(prop: &str, spec: &crate::diff::DiffSpec, out: &crate::diff::DiffOut, kind: &str) -> RunSummary {
+    let s = &out.stats;
+    let mut faults = BTreeMap::new();
+    faults.insert("exhaustion".to_string(), s.exhaustion);
+    faults.insert("spurious_cas".to_string(), out.spurious_fired);
+    let mut probes = BTreeMap::new();
+    probes.insert(format!("diff:{}", kind), 1);
+    probes.insert("st:slow_path_alloc".into(), s.slow_allocs);
+    probes.insert("st:split_remainder".into(), s.split_allocs);
+    probes.insert("st:release_to_list".into(), s.releases_to_list);
+    probes.insert("diff:clear_compared".into(), out.extra);
+    RunSummary {
+        viols: out.viols.clone(),
+        nontrivial: !out.skipped && s.ops >= 4 && (s.slow_allocs >= 1 || s.releases >= 1) && (kind != "clear" || out.extra >= 1),
+        hash: s.state_hash ^ out.trace_hash,
+        state_hash: s.state_hash,
+        steps: out.steps,
+        ops: s.ops,
+        faults,
+        probes,
+        sample: Some(json!({"scenario": kind, "cfg": spec.cfg.to_json(), "ops": ops_to_json(&out.ops[..out.ops.len().min(24)]), "ops_total": out.ops.len()})),
+    }
+}
+
+pub const SWEEP_RUNS: u64 = 4097;
+
+fn run_one_inner(prop: &str, seed: u64, run: u64, tier: &str) -> RunSummary {
+    if prop == "C06" {
+        let every = if tier == "thorough" { 1 } else { 3 };
+        let (spec, out) = crate::crash::generate(seed, run, every);
+        let mut faults = BTreeMap::new();
+        faults.insert("crash_point".to_string(), out.crash_points);
+        faults.insert("crash_point_inside_operation".to_string(), out.crash_points_in_op);
+        faults.insert("crash_point_with_live_ranges".to_string(), out.crash_points_with_obligations);
+        faults.insert("reopen_after_crash".to_string(), out.crash_points);
+        let mut probes = BTreeMap::new();
+        probes.insert("crash:post_crash_operations".to_string(), out.post_ops);
+        probes.insert("crash:max_steps_of_a_post_crash_call".to_string(), out.max_post_call_steps);
+        probes.insert("st:slow_path_alloc".into(), out.stats.slow_allocs);
+        probes.insert("st:split_remainder".into(), out.stats.split_allocs);
+        probes.insert("st:release_to_list".into(), out.stats.releases_to_list);
+        return RunSummary { viols: out.viols.clone(), nontrivial: !out.skipped && out.crash_points_in_op >= 3 && out.crash_points_with_obligations >= 1 && out.stats.max_nodes >= 1,
+            hash: out.trace_hash ^ out.stats.state_hash, state_hash: out.stats.state_hash, steps: out.steps, ops: out.crash_points, faults, probes,
+            sample: Some(json!({"cfg": spec.cfg.to_json(), "ops": ops_to_json(&out.ops[..out.ops.len().min(16)]), "crash_points": out.crash_points, "atomic_steps": out.steps})) };
+    }
+    if prop == "C09" {
+        let out = crate::corrupt::run(seed, run, tier == "thorough");
+        let mut faults = BTreeMap::new();
+        faults.insert(format!("corrupt_{}", out.kind), out.cases);
+        faults.insert("open_refused".to_string(), out.refused);
+        faults.insert("open_accepted".to_string(), out.accepted);
+        faults.insert("readonly_mutating_call".to_string(), out.ro_calls);
+        return RunSummary { viols: out.viols.clone(), nontrivial: !out.skipped && out.cases >= 1, hash: out.hash, state_hash: out.hash, steps: 0, ops: out.cases, faults, probes: BTreeMap::new(), sample: Some(out.sample.clone()) };
+    }
+    if prop == "C11" {
+        let (spec, out) = crate::diff::gen_c11(seed, run);
+        return summarise_diff(prop, &spec, &out, "c11");
+    }
+    if prop == "C17" && run % 2 == 1 {
+        let (spec, _, out) = crate::diff::gen_clear(seed, run);
+        return summarise_diff(prop, &spec, &out, "clear");
+    }
+    if prop == "C16" && run < SWEEP_RUNS {
+        let (viols, n) = crate::diff::sweep(run as u32, run);
+        let mut probes = BTreeMap::new();
+        probes.insert("sweep:configurations".to_string(), n);
+        return RunSummary { viols, nontrivial: true, hash: crate::rng::mix(run ^ 0xC16), state_hash: run, steps: 0, ops: n, faults: BTreeMap::new(), probes,
+            sample: if run == 9 { Some(json!({"scenario": "sweep", "reserved": run, "configurations": n})) } else { None } };
+    }
+    if prop == "C16" && run % 2 == 1 {
+        let (spec, out) = crate::diff::gen_backends(seed, run);
+        return summarise_diff(prop, &spec, &out, "backends");
+    }
     if MT_PROPS.contains(&prop) && (prop != "C13" || run % 2 == 1) {
         let spec = mtscen::gen_spec(seed, run, mt_flavour(prop));
         let out = mtscen::run_spec(&spec, false);
@@ -199,7 +277,61 @@ fn run_one_inner(prop: &str, seed: u64, run: u64, _tier: &str) -> RunSummary {
     RunSummary::default()
 }
 
-pub fn minimise(prop: &str, seed: u64, run: u64, _tier: &str, sig: &str) -> Option<Value> {
+fn diff_replay_json(prop: &str, kind: &str, seed: u64, run: u64, spec: &crate::diff::DiffSpec, ops: &[Op], v: &Violation, clear_at: Option<usize>) -> Value {
+    json!({"format": "rsim-replay-1", "scenario": kind, "property": prop, "seed": seed, "run": run, "spec": spec.to_json(), "ops": ops_to_json(ops),
+           "clear_at": clear_at, "violation": v.to_json(), "signature": v.signature()})
+}
+
+pub fn minimise(prop: &str, seed: u64, run: u64, tier: &str, sig: &str) -> Option<Value> {
+    let mut tag = 1u64 << 41;
+    if prop == "C06" {
+        let every = if tier == "thorough" { 1 } else { 3 };
+        let (spec, out) = crate::crash::generate(seed, run, every);
+        let v = out.viols.iter().find(|v| v.signature() == sig)?.clone();
+        // keep the history up to the failing operation, then minimise with all crash points enabled
+        let upto = (v.op + 1).min(out.ops.len());
+        let ops: Vec<Op> = out.ops[..upto].to_vec();
+        let ops = st::minimise_ops(&ops, sig, 60, |o| { tag += 1; crate::crash::replay(&spec, o, tag, 1).viols });
+        let fin = crate::crash::replay(&spec, &ops, tag + 1, 1);
+        let v2 = fin.viols.iter().find(|x| x.signature() == sig).cloned().unwrap_or(v);
+        return Some(json!({"format": "rsim-replay-1", "scenario": "crash", "property": prop, "seed": seed, "run": run, "spec": spec.to_json(), "ops": ops_to_json(&ops),
+            "crash_at": fin.first_bad_point.map(|p| json!({"op_index": p.0, "atomic_step": p.1})), "violation": v2.to_json(), "signature": sig}));
+    }
+    if prop == "C09" {
+        let out = crate::corrupt::run(seed, run, tier == "thorough");
+        let v = out.viols.iter().find(|v| v.signature() == sig)?.clone();
+        return Some(json!({"format": "rsim-replay-1", "scenario": "corrupt", "property": prop, "seed": seed, "run": run, "tier": tier, "case": out.sample, "violation": v.to_json(), "signature": sig}));
+    }
+    if prop == "C11" {
+        let (spec, out) = crate::diff::gen_c11(seed, run);
+        let v = out.viols.iter().find(|v| v.signature() == sig)?.clone();
+        let ops = st::minimise_ops(&out.ops, sig, 300, |o| { tag += 1; crate::diff::replay_c11(&spec, o, tag).viols });
+        let fin = crate::diff::replay_c11(&spec, &ops, tag + 1);
+        let v2 = fin.viols.iter().find(|x| x.signature() == sig).cloned().unwrap_or(v);
+        return Some(diff_replay_json(prop, "c11", seed, run, &spec, &ops, &v2, None));
+    }
+    if prop == "C17" && run % 2 == 1 {
+        let (spec, clear_at, out) = crate::diff::gen_clear(seed, run);
+        let v = out.viols.iter().find(|v| v.signature() == sig)?.clone();
+        // only the history after the clear is minimised (indices before it must stay put)
+        let head: Vec<Op> = out.ops[..clear_at.min(out.ops.len())].to_vec();
+        let tail: Vec<Op> = out.ops[clear_at.min(out.ops.len())..].to_vec();
+        let tail = st::minimise_ops(&tail, sig, 200, |o| { tag += 1; let mut all = head.clone(); all.extend_from_slice(o); crate::diff::replay_clear(&spec, clear_at, &all, tag).viols });
+        let mut all = head.clone();
+        all.extend_from_slice(&tail);
+        return Some(diff_replay_json(prop, "clear", seed, run, &spec, &all, &v, Some(clear_at)));
+    }
+    if prop == "C16" && run < SWEEP_RUNS {
+        let (viols, _) = crate::diff::sweep(run as u32, run);
+        let v = viols.iter().find(|v| v.signature() == sig)?.clone();
+        return Some(json!({"format": "rsim-replay-1", "scenario": "sweep", "property": prop, "seed": seed, "run": run, "reserved": run, "violation": v.to_json(), "signature": sig}));
+    }
+    if prop == "C16" && run % 2 == 1 {
+        let (spec, out) = crate::diff::gen_backends(seed, run);
+        let v = out.viols.iter().find(|v| v.signature() == sig)?.clone();
+        let ops = st::minimise_ops(&out.ops, sig, 200, |o| { tag += 1; crate::diff::replay_backends(&spec, o, tag).viols });
+        return Some(diff_replay_json(prop, "backends", seed, run, &spec, &ops, &v, None));
+    }
     if MT_PROPS.contains(&prop) && (prop != "C13" || run % 2 == 1) {
         let spec = mtscen::gen_spec(seed, run, mt_flavour(prop));
         let out = mtscen::run_spec(&spec, false);
@@ -241,13 +373,24 @@ pub fn replay(j: &Value) -> Vec<Violation> {
                     eprintln!("{}", e);
                 }
             }
-            out.viols.iter().map(|v| {
-                let mut v = v.clone();
-                let sig = mtscen::mt_signature(&v);
-                v.class = Box::leak(sig.splitn(2, '|').nth(1).unwrap_or("").to_string().into_boxed_str());
-                v
-            }).collect()
+            out.viols.clone()
         }
+        "c11" | "clear" | "backends" => {
+            let Some(spec) = crate::diff::DiffSpec::from_json(&j["spec"]) else { return vec![] };
+            let Some(ops) = ops_from_json(&j["ops"]) else { return vec![] };
+            match j["scenario"].as_str().unwrap_or("") {
+                "c11" => crate::diff::replay_c11(&spec, &ops, 7).viols,
+                "clear" => crate::diff::replay_clear(&spec, j["clear_at"].as_u64().unwrap_or(0) as usize, &ops, 7).viols,
+                _ => crate::diff::replay_backends(&spec, &ops, 7).viols,
+            }
+        }
+        "crash" => {
+            let Some(spec) = CaseSpec::from_json(&j["spec"]) else { return vec![] };
+            let Some(ops) = ops_from_json(&j["ops"]) else { return vec![] };
+            crate::crash::replay(&spec, &ops, 7, 1).viols
+        }
+        "corrupt" => crate::corrupt::run(j["seed"].as_u64().unwrap_or(1), j["run"].as_u64().unwrap_or(0), j["tier"].as_str() == Some("thorough")).viols,
+        "sweep" => crate::diff::sweep(j["reserved"].as_u64().unwrap_or(0) as u32, 7).0,
         "st" => {
             let Some(spec) = CaseSpec::from_json(&j["spec"]) else { return vec![] };
             let Some(ops) = ops_from_json(&j["ops"]) else { return vec![] };
